@@ -83,6 +83,16 @@ func (r *Run) report() int {
 		if u.Undecided != "" {
 			fmt.Printf("UNDECIDED unit=%s reason=%s\n", u.Name, u.Undecided)
 			undecided = append(undecided, u.Name+": "+u.Undecided)
+			// a unit that was decided on the unchanged tree (baseline/decided_<prop>.json) and has now left the
+			// verified subset: its obligations discharged then and cannot even be generated now - reported
+			if decidedBaseline(r.prop)[u.Name] {
+				rp := filepath.Join(verifDir, "replay", r.prop, sanitizeFile(u.Name)+"_decided.json")
+				b, _ := json.MarshalIndent(map[string]interface{}{"property": r.prop, "obligation": u.Name + "/decided", "status": "undecided",
+					"detail": "this unit verified completely on the unchanged tree; with the current source the engine cannot generate its obligations: " + u.Undecided}, "", " ")
+				os.WriteFile(rp, b, 0644)
+				fmt.Printf("  FAIL %s/decided: the unit verified on the unchanged tree and is now outside the verified subset (%s)\n", u.Name, u.Undecided)
+				viols = append(viols, Violation{Obligation: u.Name + "/decided", Replay: rp})
+			}
 			continue
 		}
 		underContract = append(underContract, u.Name)
@@ -421,4 +431,20 @@ func manifestLevel(prop string) string {
 		}
 	}
 	return ""
+}
+
+// decidedBaseline: the units of a property that verified completely on the unchanged tree (written by
+// `govc check -write-baseline`, committed under /verif/baseline).
+func decidedBaseline(prop string) map[string]bool {
+	m := map[string]bool{}
+	b, err := os.ReadFile(filepath.Join(verifDir, "baseline", "decided_"+prop+".json"))
+	if err != nil {
+		return m
+	}
+	var names []string
+	json.Unmarshal(b, &names)
+	for _, n := range names {
+		m[n] = true
+	}
+	return m
 }
